@@ -44,6 +44,7 @@ EXTREMES = [
  "null.null.null", "null .int", "nan", "+inf", "-inf", "+inf::1", "nan::nan", "{nan:1}", "{+inf:1}", "(+inf -inf nan - + ++ -- . .. .+ //)", "(- 1)", "(-1)", "(--1)", "(1-1)",
  "{{}}", "{{ }}", "{{\"\"}}", "{{''''''}}", "{{'''a''' '''b'''}}", "{{ YQ== }}", "{{YQ ==}}", "{{Y Q = =}}", "{{====}}", "{{\"\\xff\\0\\a\\b\\t\\n\\f\\r\\v\\\"\\'\\?\\/\\\\\"}}",
  "\"\\U0010FFFF\\uFFFF\\x00\\0\"", "'''\\\n'''", "\"\\\n\"", "''", "''::''", "{'':''}", "'\\u0000'", "'\\U0010ffff'",
+ "\"\\ud83d\\ude00\"", "'\\ud83d\\ude00'", "{a:\"\\ud83d\\ude00\"}", "[\"\\ud83d\\ude00\", 1]",
  "a.b", "a..b", "a:b", "a::b::c::d::e::f::1", "a :: b :: 1", "a::\n//c\n/*d*/b::1", "/**/", "//", "/", "/*", "/*/", "1//c\n2", "1/*c*/2", "[1,/*c*/2,//d\n3]",
  "\ufeff1", "\x00", "\x7f", "\x0b1\x0c2", "1\r2\r\n3", "\xc2\xa0", "\xef\xbb\xbf", "$ion_1_0", "$ion_1_0 $ion_1_0", "$ion_1_1", "$ion_2_0", "$ion_1_0::1", "'$ion_1_0'", "[$ion_1_0]",
  "$ion_symbol_table", "$ion_symbol_table::1", "$ion_symbol_table::[]", "$ion_symbol_table::()", "$ion_symbol_table::\"s\"", "$ion_symbol_table::$ion_symbol_table::{}",
